@@ -3,6 +3,28 @@ From GD Require Import C10.Wrap C10.WrapProofs C10.Guards Gen.GuardForms.
 Import ListNotations.
 Open Scope Z_scope.
 
+Arguments swrap : simpl never.
+Arguments uwrap : simpl never.
+Arguments iwrap : simpl never.
+Arguments Z.mul : simpl never.
+Arguments Z.add : simpl never.
+Arguments Z.sub : simpl never.
+Arguments Z.opp : simpl never.
+Arguments Z.div : simpl never.
+Arguments Z.modulo : simpl never.
+Arguments Z.ltb : simpl never.
+Arguments Z.gtb : simpl never.
+Arguments Z.eqb : simpl never.
+Arguments Z.leb : simpl never.
+Arguments Z.geb : simpl never.
+Arguments i64b : simpl never.
+Arguments intb : simpl never.
+Arguments two63 : simpl never.
+Arguments two64 : simpl never.
+Arguments INT64_MAX : simpl never.
+Arguments SIZE_MAX : simpl never.
+Arguments SSIZE_MAX : simpl never.
+Arguments GD_HERE : simpl never.
 Ltac consts := unfold INT64_MAX, INT64_MIN, SIZE_MAX, SSIZE_MAX, INT_MAX, two63, two64, two31, two32 in *.
 Ltac bdestr :=
   repeat match goal with
@@ -87,71 +109,75 @@ Proof.
   - inversion H. apply Z.ltb_ge in E1. subst. auto.
 Qed.
 
+Lemma orb3_false : forall a b c, (negb a || negb b) || negb c = false -> a = true /\ b = true /\ c = true.
+Proof. intros [] [] []; simpl; intros; try discriminate; auto. Qed.
+
+(* excluded region: evaluations in which a signed operation overflows (ub flag) *)
 Lemma frames_range_partial : forall cmax spf ff fs nf ns a b,
   is_u32 spf -> is_i64 ff -> is_i64 fs -> is_u64 nf -> is_u64 ns ->
-  is_i64 (spf * ff) ->
+  snd (frames_range cmax spf ff fs nf ns) = false ->
   fst (frames_range cmax spf ff fs nf ns) = Accept a b ->
   a = GD_HERE \/ (a = fs + spf * ff /\ 0 <= a <= INT64_MAX).
 Proof.
-  intros cmax spf ff fs nf ns a b Hspf Hff Hfs Hnf Hns Hp H.
-  unfold frames_range in H.
+  intros cmax spf ff fs nf ns a b Hspf Hff Hfs Hnf Hns Hub H.
+  unfold frames_range in H, Hub.
   destruct ((ff =? GD_HERE) || (fs =? GD_HERE)) eqn:Here.
   - (* here: ff0 = 0, fs0 = -1 *)
-    simpl in H. destruct (negb (nf =? 0)) eqn:Enf; simpl in H.
+    cbv beta iota zeta in H.
+    replace (0 =? 0) with true in H by reflexivity.
+    replace (negb true) with false in H by reflexivity.
+    rewrite orb_false_l in H.
+    destruct (negb (nf =? 0)) eqn:Enf.
     + replace (spf * 0) with 0 in H by lia.
       change (swrap 0) with 0 in H.
       replace (INT64_MAX - 0) with INT64_MAX in H by lia.
       rewrite swrap_id in H by (unfold is_i64; consts; lia).
       replace (GD_HERE >? INT64_MAX) with false in H by reflexivity.
-      simpl in H. replace (GD_HERE + 0) with GD_HERE in H by reflexivity.
+      replace (GD_HERE + 0) with GD_HERE in H by reflexivity.
       change (swrap GD_HERE) with GD_HERE in H.
+      cbv beta iota zeta in H. unfold fst in H.
       apply final_range_accept in H. left. tauto.
-    + apply final_range_accept in H. left. tauto.
+    + unfold fst in H. apply final_range_accept in H. left. tauto.
   - apply orb_false_iff in Here. destruct Here as [E1 E2].
     apply Z.eqb_neq in E1. apply Z.eqb_neq in E2.
+    cbv beta iota zeta in H, Hub.
     destruct (negb (ff =? 0) || negb (nf =? 0)) eqn:Eblk.
-    + rewrite (swrap_id (spf * ff)) in H by assumption.
-      destruct (Z_lt_ge_dec (spf * ff) 0) as [Hneg|Hpos].
-      * (* negative product: INT64_MAX - p wraps, compiled code rejects or... *)
-        assert (Hw : swrap (INT64_MAX - spf * ff) = INT64_MAX - spf * ff - two64).
-        { unfold swrap. unfold is_i64 in Hp.
-          replace (INT64_MAX - spf * ff + two63) with ((INT64_MAX - spf * ff + two63 - two64) + 1 * two64) by lia.
-          rewrite Z.mod_add by (consts; lia). rewrite Z.mod_small by (consts; lia). lia. }
-        rewrite Hw in H. rewrite Z.gtb_ltb in H.
-        destruct (INT64_MAX - spf * ff - two64 <? fs) eqn:E; simpl in H; [discriminate|].
-        apply Z.ltb_ge in E.
-        assert (is_i64 (fs + spf * ff)) by (unfold is_i64 in *; consts; lia).
-        rewrite swrap_id in H by assumption.
-        apply final_range_accept in H. destruct H as [Ha [_ Hc]]. subst a.
-        unfold is_i64 in *. consts. unfold GD_HERE in *. lia.
-      * rewrite (swrap_id (INT64_MAX - spf * ff)) in H by (unfold is_i64 in *; consts; lia).
-        rewrite Z.gtb_ltb in H.
-        destruct (INT64_MAX - spf * ff <? fs) eqn:E; simpl in H; [discriminate|].
-        apply Z.ltb_ge in E.
-        assert (is_i64 (fs + spf * ff)) by (unfold is_i64 in *; consts; lia).
-        rewrite swrap_id in H by assumption.
-        apply final_range_accept in H. destruct H as [Ha [_ Hc]]. subst a.
-        destruct Hc as [Hc|Hc]; [right|left; assumption].
-        split; [reflexivity|]. unfold is_i64 in *. consts. lia.
+    + destruct (fs >? swrap (INT64_MAX - swrap (spf * ff))) eqn:E; [discriminate H|].
+      unfold fst in H. unfold snd in Hub.
+      apply orb3_false in Hub. destruct Hub as [Hp [Hl Hs]].
+      apply i64b_spec in Hp.
+      rewrite (swrap_id (spf * ff)) in * by assumption.
+      apply i64b_spec in Hl. apply i64b_spec in Hs.
+      rewrite (swrap_id (INT64_MAX - spf * ff)) in E by assumption.
+      rewrite (swrap_id (fs + spf * ff)) in H by assumption.
+      rewrite Z.gtb_ltb in E. apply Z.ltb_ge in E.
+      apply final_range_accept in H. destruct H as [Ha [_ Hc]]. subst a.
+      destruct Hc as [Hc|Hc]; [right|left; assumption].
+      split; [reflexivity|]. unfold is_i64 in *. consts. lia.
     + apply orb_false_iff in Eblk. destruct Eblk as [Ef _].
       apply negb_false_iff in Ef. apply Z.eqb_eq in Ef. subst ff.
-      simpl in H. apply final_range_accept in H. destruct H as [Ha [_ Hc]]. subst a.
+      unfold fst in H. apply final_range_accept in H. destruct H as [Ha [_ Hc]]. subst a.
       destruct Hc as [Hc|Hc]; [right|left; assumption].
       split; [lia|]. unfold is_i64 in *. consts. lia.
 Qed.
 
-Lemma frames_range_refuted : forall cmax, ~ frames_range_statement cmax.
+Lemma frames_range_refuted_at : forall cmax, (cmax = SIZE_MAX \/ cmax = SSIZE_MAX) -> ~ frames_range_statement cmax.
 Proof.
-  intros cmax H.
+  intros cmax Hc H.
   specialize (H 4 4611686018427387904 0 0 1 0 1).
   assert (is_u32 4) by (unfold is_u32, two32; lia).
   assert (is_i64 4611686018427387904) by (unfold is_i64, two63; lia).
   assert (is_i64 0) by (unfold is_i64, two63; lia).
   assert (is_u64 0) by (unfold is_u64, two64; lia).
   assert (is_u64 1) by (unfold is_u64, two64; lia).
-  specialize (H H0 H1 H2 H3 H4 eq_refl).
+  assert (Hv : fst (frames_range cmax 4 4611686018427387904 0 0 1) = Accept 0 1)
+    by (destruct Hc; subst cmax; vm_compute; reflexivity).
+  specialize (H H0 H1 H2 H3 H4 Hv).
   unfold GD_HERE in H. lia.
 Qed.
+
+Lemma frames_range_refuted : ~ frames_range_statement SIZE_MAX /\ ~ frames_range_statement SSIZE_MAX.
+Proof. split; apply frames_range_refuted_at; auto. Qed.
 
 (* the count computed by gd_getdata64 / gd_putdata64 *)
 Lemma frames_count_sound : forall cmax spf ff fs nf ns a b,
